@@ -561,3 +561,94 @@ func rejectConfirmation(t *engine.T, tp tuple) {
 		}
 	})
 }
+
+// scalarRange: the private-scalar range check of the byte-oriented implementation, limb by limb. The check compares a
+// 32-byte string with n-1 in 64-bit limbs; the scalars of the protocol tuples never sit at a limb boundary. Here: for
+// every 64-bit limb position the values 2^(64i) - 1, 2^(64i), 2^(64(i+1)) - 2^(64i) (one limb all ones), n with limb i
+// raised / lowered by one, n - 1 -/+ 2^(64i), 2^256 - 2^(64i). Oracle: NewPrivateKey accepts exactly 1 <= d <= n-2
+// (sm2.NewPrivateKey agrees), and an accepted scalar completes an SM2-MQV exchange with the reference key.
+func scalarRange(t *engine.T) {
+	c := ecdh.P256()
+	n := ref.N
+	nm2 := new(big.Int).Sub(n, big.NewInt(2))
+	sh := func(k uint) *big.Int { return new(big.Int).Lsh(one, k) }
+	seen := map[string]bool{}
+	var vals []*big.Int
+	add := func(v *big.Int) {
+		if v.Sign() < 0 || v.BitLen() > 256 || seen[v.String()] {
+			return
+		}
+		seen[v.String()] = true
+		vals = append(vals, v)
+	}
+	for i := uint(0); i < 4; i++ {
+		lo, hi := sh(64*i), sh(64*(i+1))
+		add(new(big.Int).Sub(lo, one))
+		add(lo)
+		add(new(big.Int).Sub(hi, lo))
+		add(new(big.Int).Sub(hi, one))
+		add(new(big.Int).Add(n, lo))
+		add(new(big.Int).Sub(n, lo))
+		add(new(big.Int).Sub(new(big.Int).Sub(n, one), lo))
+		add(new(big.Int).Add(new(big.Int).Sub(n, one), lo))
+		add(new(big.Int).Sub(sh(256), lo))
+		// n with limb i replaced by all ones / zero
+		mask := new(big.Int).Sub(hi, lo)
+		add(new(big.Int).Or(n, mask))
+		add(new(big.Int).AndNot(n, mask))
+	}
+	for _, d := range []int64{-3, -2, -1, 0, 1, 2} {
+		add(new(big.Int).Add(n, big.NewInt(d)))
+	}
+	peerD, peerR := big.NewInt(7), big.NewInt(11)
+	for _, v := range vals {
+		want := v.Sign() > 0 && v.Cmp(nm2) <= 0
+		var k *ecdh.PrivateKey
+		var err, err2 error
+		if t.Guard("ecdh/scalar-range", func() {
+			k, err = c.NewPrivateKey(b32(v))
+			_, err2 = sm2.NewPrivateKey(b32(v))
+		}) {
+			continue
+		}
+		t.Eval(2)
+		t.Nontrivial(fmt.Sprintf("scalar-range/%d/%v", v.BitLen(), want))
+		if (err == nil) != want {
+			t.Fail("ecdh/scalar-range/NewPrivateKey/"+map[bool]string{true: "rejects-valid", false: "accepts-out-of-range"}[want], "ecdh.P256().NewPrivateKey(%x): err=%v; the scalar is %s [1, n-2]", v, err, map[bool]string{true: "in", false: "outside"}[want])
+		}
+		if (err2 == nil) != want {
+			t.Fail("ecdh/scalar-range/sm2.NewPrivateKey/"+map[bool]string{true: "rejects-valid", false: "accepts-out-of-range"}[want], "sm2.NewPrivateKey(%x): err=%v", v, err2)
+		}
+		if err != nil || !want {
+			continue
+		}
+		// as static and as ephemeral key of an MQV exchange: both parties must arrive at the same point, and the public
+		// key must be [d]G of the reference
+		t.Guard("ecdh/scalar-range/mqv", func() {
+			if !bytes.Equal(k.PublicKey().Bytes(), ref.BaseMul(v).Uncompressed()) {
+				t.Fail("ecdh/scalar-range/public-key", "PublicKey() of the scalar %x differs from [d]G", v)
+				return
+			}
+			o13, e1 := c.NewPrivateKey(b32(big.NewInt(13)))
+			sB, e2 := c.NewPrivateKey(b32(peerD))
+			eB, e3 := c.NewPrivateKey(b32(peerR))
+			if e1 != nil || e2 != nil || e3 != nil {
+				t.Fail("ecdh/scalar-range/setup", "%v %v %v", e1, e2, e3)
+				return
+			}
+			for role, pair := range [][2]*ecdh.PrivateKey{{k, o13}, {o13, k}} {
+				uvA, errA := pair[0].SM2MQV(pair[1], sB.PublicKey(), eB.PublicKey())
+				uvB, errB := sB.SM2MQV(eB, pair[0].PublicKey(), pair[1].PublicKey())
+				t.Eval(2)
+				if (errA == nil) != (errB == nil) {
+					t.Fail("ecdh/scalar-range/mqv/one-side-fails", "scalar %x in role %d: %v / %v", v, role, errA, errB)
+					continue
+				}
+				if errA == nil && !bytes.Equal(uvA.Bytes(), uvB.Bytes()) {
+					t.Fail("ecdh/scalar-range/mqv/points-differ", "scalar %x in role %d: U = %x, V = %x", v, role, uvA.Bytes(), uvB.Bytes())
+				}
+			}
+		})
+	}
+	t.Sample(map[string]any{"family": "scalar-range", "values": len(vals)})
+}
